@@ -113,6 +113,15 @@ fn main() {
             let ctx = Ctx { id: id.clone(), tier, seed, start: Instant::now() };
             let code = props::run(&ctx);
             supervise::remove_frozen_exe();
+            // scratch directories of this check's (possibly killed) worker processes
+            if let Ok(rd) = std::fs::read_dir("/verif/target/scratch") {
+                let prefix = format!("{}-", id.to_lowercase());
+                for e in rd.flatten() {
+                    if e.file_name().to_string_lossy().starts_with(&prefix) {
+                        let _ = std::fs::remove_dir_all(e.path());
+                    }
+                }
+            }
             std::process::exit(code);
         }
         "replay" => {
